@@ -15,10 +15,15 @@ import (
 	"encoding/hex"
 	"encoding/json"
 	"fmt"
+	"go/ast"
+	"go/parser"
+	"go/token"
 	"io"
 	"math"
 	"os"
 	"os/exec"
+	"path/filepath"
+	"regexp"
 	"sort"
 	"strconv"
 	"strings"
@@ -306,7 +311,19 @@ func callTemplate(fn string, args []c08Arg) (string, []string) {
 // ---------------------------------------------------------------- value pools
 var intPool = []string{"0", "1", "-1", "2", "-2", "-9223372036854775808", "9223372036854775807",
 	"2147483648", "-2147483648", "4294967296", "-4294967296", "3", "9", "10", "100", "1000000", "1000001", "+5", "007"}
-var floatPool = []string{"0", "-0", "1e308", "NaN", "Inf", "-Inf", "1.5", "-2.25", "1e-320", "9223372036854775808", "1e19"}
+var floatPool = []string{"0", "-0", "1e308", "NaN", "Inf", "-Inf", "1.5", "-2.25", "1e-320", "9223372036854775808", "1e19",
+	// non-zero magnitudes below 1 (truncate to the integer 0), values just around +-1 and +-2^63, non-integers
+	"0.5", "-0.25", "1e-300", "5e-324", "-5e-324", "0.9999999999999999", "-0.9999999999999999",
+	"1.0000000000000002", "-1.0000000000000002", "2.5", "-1.5", "-0.5",
+	"9223372036854774784", "-9223372036854777856", "-9223372036854775808", "18446744073709551616", "63.5", "64", "65", "-1e308"}
+
+// operands of {! ..} formulas: every value above plus the small integers the integer-only operators care about
+var mathPool = append(append([]string{}, floatPool...), "1", "-1", "2", "-2", "7", "63", "-63", "4294967296", "2147483648", "9223372036854775807", "abc", "")
+
+// scalar helpers that parse their arguments with strconv.ParseFloat
+var floatFns = map[string]bool{"sumf": true, "subf": true, "multf": true, "divf": true, "pow": true, "ceil": true, "floor": true,
+	"round": true, "log10": true, "log2": true, "ln": true, "sqrt": true, "lt": true, "gt": true, "lte": true, "gte": true,
+	"percent": true, "hf": true, "isnum": true, "!": true}
 var strPool = []string{"", " ", "abc", "a b c", "\xff\xfe", "a\x00b", "\x00", "x,y'z", "red", "RED", "linear", "log10", "log2",
 	"%d %s", "1h30m", "2006-01-02", "quarter", "a.b.c", "[1,2]", "/tmp/a.b", "true", "\t", " ", "é"}
 var long10k = strings.Repeat("a", 10240)
@@ -561,7 +578,11 @@ func genArgs(r *Rng, fn string, arity int) []c08Arg {
 		case fn == "repeat" && i == 0 && r.Chance(1, 2):
 			v = Pick(r, []string{"a", "ab", "", "-", " "})
 		default:
-			v = pickVal(r, 6, 2, 4)
+			if floatFns[fn] {
+				v = pickVal(r, 2, 8, 2)
+			} else {
+				v = pickVal(r, 6, 3, 4)
+			}
 			if compared[fn] && len(v) > 1000 { // outputs of these are evaluated by the model too: keep vm_compute cheap
 				v = v[:600]
 			}
@@ -627,6 +648,36 @@ func c08Gen(r *Rng, n int, tier string) []Case {
 				args := genArgs(r, fn, arity)
 				in, tags, heavy := mkCall("call", fn, args, r.Bool(), r.Bool())
 				add(in, tags, heavy, nontrivArgs(args))
+			}
+		}
+	}
+
+	// 1b. {! ..} formulas: every binary operator of stdmath x both operand positions x the float boundary
+	//     pool, operands as constants of the formula (compile-time folding) and as group references; every
+	//     unary operator on every value.  A deterministic sweep, thinned in the quick tier by the seed.
+	bin, uni := mathOps()
+	keep := func() bool { return tier == "thorough" || r.Chance(2, 5) }
+	for _, op := range bin {
+		for _, v := range mathPool {
+			for form := 0; form < 6; form++ {
+				if !keep() {
+					continue
+				}
+				if in, ok := mathCase(op, v, form); ok {
+					add(in, []string{"math:binop", "mathop:" + op}, false, isBoundaryVal(v))
+				}
+			}
+		}
+	}
+	for _, op := range uni {
+		for _, v := range mathPool {
+			for form := 0; form < 2; form++ {
+				if !keep() {
+					continue
+				}
+				if in, ok := mathUnaryCase(op, v, form); ok {
+					add(in, []string{"math:unop", "mathop:" + op}, false, isBoundaryVal(v))
+				}
 			}
 		}
 	}
@@ -783,6 +834,135 @@ func genNested(r *Rng, names []string) (c08In, []string) {
 	return in, tags
 }
 
+// ---- {! ..} formulas
+// the operator tables are read from the source under test (keys of the composite literals `ops` and
+// `uniOps` of pkg/expressions/stdmath/ops.go), so a new operator is exercised without touching the harness
+func mathOps() (bin, uni []string) {
+	repo := os.Getenv("VERIF_REPO")
+	if repo == "" {
+		repo = "/repo"
+	}
+	path := filepath.Join(repo, "pkg/expressions/stdmath/ops.go")
+	f, err := parser.ParseFile(token.NewFileSet(), path, nil, 0)
+	if err != nil {
+		fmt.Fprintln(os.Stderr, "C08: cannot read the operator tables:", err)
+		os.Exit(2)
+	}
+	keys := func(name string) []string {
+		var out []string
+		for _, d := range f.Decls {
+			gd, ok := d.(*ast.GenDecl)
+			if !ok {
+				continue
+			}
+			for _, sp := range gd.Specs {
+				vs, ok := sp.(*ast.ValueSpec)
+				if !ok {
+					continue
+				}
+				for i, n := range vs.Names {
+					if n.Name != name || i >= len(vs.Values) {
+						continue
+					}
+					if cl, ok := vs.Values[i].(*ast.CompositeLit); ok {
+						for _, el := range cl.Elts {
+							if kv, ok := el.(*ast.KeyValueExpr); ok {
+								if bl, ok := kv.Key.(*ast.BasicLit); ok {
+									if k, err := strconv.Unquote(bl.Value); err == nil {
+										out = append(out, k)
+									}
+								}
+							}
+						}
+					}
+				}
+			}
+		}
+		sort.Strings(out)
+		return out
+	}
+	bin, uni = keys("ops"), keys("uniOps")
+	if len(bin) == 0 || len(uni) == 0 {
+		fmt.Fprintln(os.Stderr, "C08: operator tables `ops` / `uniOps` not found in", path)
+		os.Exit(2)
+	}
+	return
+}
+
+// a value written as a constant of a formula: plain decimal digits (the tokenizer splits at + and -, so no
+// exponent form); a leading minus is the unary operator; NaN and Inf are literals of strconv.ParseFloat
+func mathConst(v string) (string, bool) {
+	f, err := strconv.ParseFloat(v, 64)
+	if err != nil {
+		return "", false
+	}
+	switch {
+	case math.IsNaN(f):
+		return "NaN", true
+	case math.IsInf(f, 1):
+		return "Inf", true
+	case math.IsInf(f, -1):
+		return "(-Inf)", true
+	}
+	s := strconv.FormatFloat(math.Abs(f), 'f', -1, 64)
+	if math.Signbit(f) {
+		return "(-" + s + ")", true
+	}
+	return s, true
+}
+
+func mathIn(tpl string, groups ...string) c08In {
+	var g []string
+	for _, x := range groups {
+		g = append(g, hx(x))
+	}
+	return c08In{Kind: "math", Template: hx(tpl), Text: readable(tpl), Groups: g, Unicode: true}
+}
+
+// forms: 0 {! 7 op V} constants (folded when the formula is compiled)   1 {! [0] op [1]} groups 7, V
+//        2 {! [0] op V} group left, constant right                       3 {! V op 3} constants
+//        4 {! [0] op [1]} groups V, 3                                    5 {! V op [0]} constant left, group right
+func mathCase(op, v string, form int) (c08In, bool) {
+	c, isNum := mathConst(v)
+	switch form {
+	case 0:
+		if !isNum {
+			return c08In{}, false
+		}
+		return mathIn(fmt.Sprintf("{! 7 %s %s}", op, c)), true
+	case 1:
+		return mathIn(fmt.Sprintf("{! [0] %s [1]}", op), "7", v), true
+	case 2:
+		if !isNum {
+			return c08In{}, false
+		}
+		return mathIn(fmt.Sprintf("{! [0] %s %s}", op, c), "-9"), true
+	case 3:
+		if !isNum {
+			return c08In{}, false
+		}
+		return mathIn(fmt.Sprintf("{! %s %s 3}", c, op)), true
+	case 4:
+		return mathIn(fmt.Sprintf("{! [0] %s [1]}", op), v, "3"), true
+	default:
+		if !isNum {
+			return c08In{}, false
+		}
+		return mathIn(fmt.Sprintf("{! %s %s [0]}", c, op), "0.5"), true
+	}
+}
+
+func mathUnaryCase(op, v string, form int) (c08In, bool) {
+	if form == 0 {
+		return mathIn(fmt.Sprintf("{! %s([0])}", op), v), true
+	}
+	c, isNum := mathConst(v)
+	if !isNum {
+		return c08In{}, false
+	}
+	return mathIn(fmt.Sprintf("{! %s(%s)}", op, c)), true
+}
+
 type fixedCase struct {
 	in    c08In
 	tags  []string
@@ -821,6 +1001,12 @@ func fixedCases() []fixedCase {
 		}
 		out = append(out, fixedCase{c08In{Kind: kind, Template: hx(tpl), Text: readable(tpl), Groups: g, Keys: keys, Unicode: true}, tags, false})
 	}
+	// integer-only operators of {! ..}: a divisor / shift count whose truncation is 0 or negative while the float is not
+	raw("math", "{! [0] % [1]}", []string{"7", "0.5"}, nil)
+	raw("math", "{! 7 % 0.5}{! 7 % (-0.25)}{! [0] % 0.0000001}", []string{"7"}, nil)
+	raw("math", "{! [0] % [1]}{! [0] << [1]}{! [0] >> [1]}", []string{"7", "5e-324"}, nil)
+	raw("math", "{! [0] << [1]}{! [0] >> [1]}{! 1 << (-0.5)}{! 1 >> (-1.5)}{! 1 << 64}{! 1 << 1000}", []string{"1", "-1.5"}, nil)
+	raw("math", "{! [0] % [1]}{! [0] % (-1)}", []string{"-9223372036854775808", "-1"}, nil)
 	raw("malformed", "abc\\", nil, nil)
 	raw("malformed", "{", nil, nil)
 	raw("malformed", "}{\"", nil, nil)
@@ -890,8 +1076,17 @@ func textTags(t string) []string {
 			}
 		}
 	}
+	// a mutation may turn an argument into a huge integer precision (see flatTags)
+	for _, fn := range []string{"bytesize", "bytesizesi", "downscale", "round", "percent"} {
+		if strings.Contains(t, "{"+fn+" ") && longDigits.MatchString(t) {
+			tags = append(tags, "kf:C08-precision-unbounded")
+			break
+		}
+	}
 	return tags
 }
+
+var longDigits = regexp.MustCompile(`[0-9]{8,}`)
 
 var _ = math.MaxInt64
 
@@ -910,6 +1105,7 @@ func main() {
 			"helpers with an oracle-free output model the output string is compared with the model (kind flat); (2) nested sub-expressions with " +
 			"negative group indices and key look-ups inside @map/@filter/@reduce/@for and helpers nested in helpers; (3) malformed templates: 1-3 " +
 			"mutations (insert/delete/replace by brace, quote, backslash, blank; truncation; trailing backslash; duplicated prefix) of well-formed ones; " +
+			"(1b) {! ..} formulas: every key of stdmath ops / uniOps (read from the source) x both operand positions x the float pool (0, -0, 1e308, NaN, +-Inf, non-zero magnitudes below 1 such as 0.5, -0.25, 1e-300, 5e-324, neighbours of +-1 and +-2^63, non-integers 2.5, -1.5, shift counts around 64), operands as constants (folded at compile time) and as group references; " +
 			"(0) the inputs of the recorded findings. Non-trivial: an argument is a boundary value, or the case is nested / malformed. Distinct: by " +
 			"(template, groups, keys, colour/unicode switches).",
 		Gen:    c08Gen,
